@@ -8,6 +8,7 @@
 #include <string>
 #include <vector>
 
+#include "romea_core_common/geodesy/WGS84Coordinates.hpp"
 #include "romea_core_common/diagnostic/CheckupEqualTo.hpp"
 #include "romea_core_common/diagnostic/CheckupGreaterThan.hpp"
 #include "romea_core_common/diagnostic/CheckupLowerThan.hpp"
@@ -277,8 +278,18 @@ void thresholds(vf::Ctx & c)
     }
     sp.ops.push_back(op);
   }
+  // other report producers share the thread: a position may have been put into some report just before (its printer
+  // changes the precision of the stream it is given); the check-up's info value is the value printed on a fresh stream
+  const bool positionReportedFirst = c.s.flag("a_wgs84_position_was_reported_first_in_this_thread", 1, 4);
+  if (positionReportedFirst) {c.label("other-values-reported-first-in-the-same-thread");}
   c.commit();
 
+  if (positionReportedFirst) {
+    romea::core::DiagnosticReport other;
+    romea::core::setReportInfo(other, "position", romea::core::makeWGS84Coordinates(0.7853981633974483, 0.05235987755982988));
+    romea::core::setReportInfo(other, "ratio", 1.0 / 3.0);
+    c.check(other.info.size() == 2, "setReportInfo did not create the two entries");
+  }
   Tally t;
   switch (sp.type) {
     case EQUAL_TO:
